@@ -129,7 +129,34 @@ def run_ops(ctx: _Ctx, ops: list) -> list:
         else:
             ctx.fault.arm(-1, "pre", "ValueError")      # counts callbacks, never fires
         try:
-            if kind == "new_compiler":
+            if kind == "new_compiler" and op.get("io_fault"):
+                # I/O fault while the constructor reads its resource files: the n-th open() of a matching path raises
+                # OSError, or (json files) delivers only the first half of the file (torn read)
+                import builtins
+                import errno as _errno
+                import io as _io
+                iof = op["io_fault"]
+                real_open = builtins.open
+                seen = {"n": 0}
+
+                def faulty_open(file, *a, **kw):
+                    if isinstance(file, (str, os.PathLike)) and iof["match"] in os.path.basename(str(file)):
+                        seen["n"] += 1
+                        if seen["n"] == iof.get("nth", 1):
+                            o["fault_fired"] = True
+                            if iof["kind"] == "torn":
+                                with real_open(file, *a, **kw) as f_:
+                                    data = f_.read()
+                                return _io.StringIO(data[:len(data) // 2])
+                            raise OSError({"EIO": _errno.EIO, "EMFILE": _errno.EMFILE, "ENOENT": _errno.ENOENT}[iof["kind"]],
+                                          "injected I/O fault", str(file))
+                    return real_open(file, *a, **kw)
+                builtins.open = faulty_open
+                try:
+                    comps.append(ctx.Compiler(ctx.ArchEnum.HEXAGON, code_format=ctx.CodeFormat[op["fmt"]]))
+                finally:
+                    builtins.open = real_open
+            elif kind == "new_compiler":
                 comps.append(ctx.Compiler(ctx.ArchEnum.HEXAGON, code_format=ctx.CodeFormat[op["fmt"]]))
             elif kind == "stmt":
                 code = c.compile_c_stmt(op["code"])
@@ -293,7 +320,7 @@ def run_ops(ctx: _Ctx, ops: list) -> list:
             o["exc"] = type(ie).__name__
             o["outer_exc"] = type(e).__name__
             o["msg"] = str(ie)[:200]
-        o["fault_fired"] = bool(ctx.fault.fired)
+        o["fault_fired"] = bool(ctx.fault.fired) or bool(o.get("fault_fired"))
         o["ncb"] = ctx.fault.disarm()
         o["nmeta"] = getattr(ctx.fault, "nmeta", 0)
         try:
